@@ -303,7 +303,7 @@ def run(db, tier):
     conds_ok = True
     why = ""
     for a, v, c in got:
-        if a == "BinOp" and "(to_const(e.BinOp.0), to_const(e.BinOp.2)) is (Some,Some)=True" not in c:
+        if a == "BinOp" and not ("is_none(to_const(e.BinOp.0))=False" in c and "is_none(to_const(e.BinOp.2))=False" in c):
             conds_ok, why = False, "a BinOp is folded under [%s]: not both operands are known constants" % c
         if a == "UnOp" and "is_none(to_const(e.UnOp.1))=False" not in c:
             conds_ok, why = False, "a UnOp is folded under [%s]" % c
